@@ -216,6 +216,42 @@ func checkC03(c *hx.Ctx) {
 	// histories of two DIDs anchored through the REAL batch files (handler, CAS, provider, transaction processor)
 	chainsThroughBatchFiles(c, c.N(60, 1200))
 	c03ThroughObserver(c)
+	// DIDs whose OWN create carries a delta that matches the signed hash but cannot be used (it breaks a protocol rule, or its
+	// patches fail): the DID exists with a recovery commitment, an empty document and NO update commitment - the key the unusable
+	// delta names cannot update it, the recovery key can recover or deactivate it
+	{
+		br := c.Rng("create-with-unusable-delta")
+		p := hx.BaseProtocol()
+		pc := hx.NewClient(hx.NewVersion(p, hx.VersionOpts{ParserOpts: hx.StrictResolution()}))
+		for k := 0; k < c.N(24, 300); k++ {
+			u := NewUniverse(br.Split(fmt.Sprint(k)), ref.SHA256, p, []string{hx.Pick(br, ref.KeyTypes), "P-256"})
+			status := ref.DeltaInvalid
+			bad := []interface{}{invalidPatch}
+			if k%2 == 1 {
+				status, bad = ref.DeltaFails, []interface{}{failingPatch}
+			}
+			u.Create.Delta = ref.Delta(u.U[0].Commitment(ref.SHA256), bad)
+			u.Suffix = u.Create.Suffix()
+			u.BuildAlphabet(1015, 1025)
+			u.Ops["C"] = u.MkCreate("C", status)
+			for _, labels := range [][]string{{"C", "u01"}, {"C", "u01", "u12"}, {"C", "r01", "u12"}, {"C", "d0", "u01"}, {"C", "u02", "r01"}} {
+				var H []*ref.Op
+				for i, l := range labels {
+					H = append(H, Place(u.Ops[l], uint64(1000+10*i), uint64(i%3), fmt.Sprintf("ref%d", i), 0))
+				}
+				c.Eval()
+				st, merr := ref.Resolve(H, ref.ResolveOpts{})
+				rm, err := SUTResolve(pc, u.Suffix, H, nil)
+				if want, got := stKey(st, merr), rmKey(rm, err); want != got {
+					c.Violation(fmt.Sprintf("C03 resolved state differs from reference state machine (the DID's own create carries a delta that cannot be used: %s): history [%s]\n   model:   %s\n   library: %s", status, histString(H), want, got),
+						map[string]interface{}{"suffix": u.Suffix, "history": replayOps(H), "model": want, "library": got})
+					return
+				}
+				c.Count("histories_on_a_create_with_unusable_delta")
+			}
+		}
+		c.Floor("histories_on_a_create_with_unusable_delta", 100)
+	}
 	c.Floor("histories_through_the_observer", 40)
 	c.Floor("observer_nodes_reading_from_alternate_sources", 15)
 	c.Floor("notifications_mixing_protocol_versions", 15)
